@@ -23,6 +23,8 @@ pub struct C08 {
     names: Vec<String>,
     /// (name, definition expression, long?) of every prefix line of the bundled files, in file order
     prefix_defs: Vec<(String, Expr, bool)>,
+    /// (name, right-hand side text) of every unit line of the bundled files (own line splitter)
+    unit_texts: Vec<(String, String)>,
     ctxs: [Lazy<Context>; 2],
 }
 
@@ -59,8 +61,60 @@ impl C08 {
             }
         }
         fams.add("per-prefix fixed point", vec![2, prefix_defs.len() as u64]);
-        C08 { fams, names, prefix_defs, ctxs: [Lazy::new(), Lazy::new()] }
+        let mut unit_texts = unit_lines(rink_core::DEFAULT_FILE.unwrap());
+        unit_texts.extend(unit_lines(rink_core::CURRENCY_FILE.unwrap()));
+        fams.add("definition text read by the query parser", vec![2, unit_texts.len() as u64]);
+        C08 { fams, names, prefix_defs, unit_texts, ctxs: [Lazy::new(), Lazy::new()] }
     }
+}
+
+/// Own line splitter for the definitions format: (name, right-hand side text) of every plain unit
+/// line (no base units, prefixes, quantities, substances, directives), continuation lines joined
+/// and comments removed.  Only the *expression* is left to a parser - and to a different one than
+/// the loader's (the query parser).
+fn unit_lines(text: &str) -> Vec<(String, String)> {
+    let mut logical: Vec<String> = vec![];
+    let mut cur = String::new();
+    for raw in text.lines() {
+        let line = match raw.find('#') {
+            Some(i) if !raw[..i].contains('"') => &raw[..i],
+            _ => raw,
+        };
+        if let Some(l) = line.trim_end().strip_suffix('\\') {
+            cur.push_str(l);
+            cur.push(' ');
+            continue;
+        }
+        cur.push_str(line);
+        logical.push(std::mem::take(&mut cur));
+    }
+    let mut out = vec![];
+    let mut in_block = false;
+    for l in logical {
+        let t = l.trim();
+        if in_block {
+            if t.starts_with('}') {
+                in_block = false;
+            }
+            continue;
+        }
+        if t.is_empty() || t.starts_with("??") || t.starts_with('!') {
+            continue;
+        }
+        if t.ends_with('{') {
+            in_block = true;
+            continue;
+        }
+        let (name, rhs) = match t.split_once(|c: char| c == ' ' || c == '\t') {
+            Some((n, r)) => (n.trim(), r.trim()),
+            None => continue,
+        };
+        if name.starts_with('"') || name.ends_with('-') || rhs.starts_with('!') || rhs.starts_with('?') || rhs.contains('{') || rhs.is_empty() {
+            continue;
+        }
+        out.push((name.to_string(), rhs.to_string()));
+    }
+    out
 }
 
 fn cfg_name(c: u64) -> &'static str {
@@ -89,6 +143,9 @@ impl Space for C08 {
         let (f, d) = self.fams.locate(idx);
         if f == 0 {
             format!("{}: {}", cfg_name(d[0]), GLOBAL[d[1] as usize])
+        } else if f == 3 {
+            let (n, r) = &self.unit_texts[d[1] as usize];
+            format!("{}: text `{} {}`", cfg_name(d[0]), n, r)
         } else if f == 2 {
             format!("{}: prefix `{}-`", cfg_name(d[0]), self.prefix_defs[d[1] as usize].0)
         } else {
@@ -181,6 +238,58 @@ impl Space for C08 {
                         }
                     }
                 }
+            }
+            return out;
+        }
+        if f == 3 {
+            // The stored definition is what the loader's own parser made of the text; an error of
+            // that parser is invisible to the fixed point above.  Here the text itself is read by
+            // the query parser (another implementation of the same expression grammar).
+            use rink_core::parsing::text_query;
+            let (name, rhs) = &self.unit_texts[d[1] as usize];
+            let ctx = self.ctxs[c as usize].get(|| load(c).0);
+            let r = &ctx.registry;
+            let mut out = CaseOut::ok("text agrees").key(key);
+            if self.unit_texts.iter().filter(|p| &p.0 == name).count() > 1 {
+                out.outcome = "name defined more than once (unjudged)".into();
+                return out;
+            }
+            let stored = match r.units.get(name) {
+                Some(v) => v,
+                None => {
+                    out.outcome = "not a unit in this configuration (substance / failed)".into();
+                    return out;
+                }
+            };
+            // lexical differences between the two grammars: characters that are part of a name in a
+            // definitions file but operators or quotes in a query
+            let lexical = rhs.chars().any(|ch| matches!(ch, '%' | '\'' | '"' | ',' | '$' | '_' | '=' | '<' | '>' | ';' | ':' | '&' | '~' | '@' | '[' | ']' | '\u{b0}'))
+                || rhs.split(|ch: char| ch.is_whitespace() || "()/|^+*".contains(ch)).any(|w| w.chars().skip(1).any(|ch| ch == '-') && !w.chars().next().unwrap().is_ascii_digit() && !w.starts_with('.'));
+            let mut it = text_query::TokenIterator::new(rhs).peekable();
+            let expr = text_query::parse_expr(&mut it);
+            let rest = it.peek().cloned();
+            if !matches!(rest, Some(text_query::Token::Eof) | None) {
+                out.outcome = "query parser leaves input (unjudged)".into();
+                return out;
+            }
+            match ctx.eval(&expr) {
+                Ok(Value::Number(n)) => {
+                    if n != *stored {
+                        // `a * b / c` groups differently by design: explicit `*` binds like juxtaposition in a
+                        // definitions file and like `/` in a query
+                        let star = rhs.contains('*') && rhs.contains('/');
+                        if lexical || star {
+                            out.outcome = "differs where the two grammars differ by design (unjudged)".into();
+                        } else {
+                            out = out.viol(
+                                "stored value differs from what the definition text evaluates to",
+                                format!("`{} {}`: the text evaluates to {:?} but {:?} is stored (stored definition: {})", name, rhs, n, stored, r.definitions.get(name).map(|e| e.to_string()).unwrap_or_default()),
+                            );
+                        }
+                    }
+                }
+                Ok(_) => out.outcome = "text is not a number for the query evaluator (unjudged)".into(),
+                Err(_) => out.outcome = "text not evaluable as a query (unjudged)".into(),
             }
             return out;
         }
